@@ -254,6 +254,109 @@ class C13(Profile):
         k["vias"] = [0, 1, 2, 3, 4, 4, 5, 5, 6, 7]
 
 
+class C19(Profile):
+    """timestamps: differential oracle over every entity around every op, simulated clock."""
+    prop = "C19"
+    name = "C19"
+    weights = {"create_block": 2, "create_group": 3, "create_array": 4, "create_tag": 3, "create_mtag": 2,
+               "create_feature": 3, "create_source": 3, "create_section": 4, "create_property": 2,
+               "append_dim": 5, "set_attr": 22, "set_dim": 2, "link_append": 3, "set_metadata": 2,
+               "set_role": 5, "delete": 1, "data_write": 2, "prop_values": 1, "toggle_auto": 3,
+               "force_ts": 7, "restart": 3, "link_dim": 1}
+    reopen_introspect = True
+    never_off = ("restart", "set_attr", "force_ts", "toggle_auto", "append_dim")
+    fault_kinds = ("restart_rw", "restart_ro", "clock:stall", "clock:jump", "clock:back", "toggle_auto")
+
+    def owns(self, oracle, site, cls):
+        if oracle in ("ts_rule", "forced_ts_readback"):
+            return True
+        if oracle == "reopen_introspect":
+            return cls.endswith(("created_at", "updated_at"))
+        return False
+
+    def tune_knobs(self, k, rng):
+        k["names"] = list(P.NAMES_PLAIN)
+        k["dup_rate"] = 0.03
+        k["clock"] = P.pick(rng, ["tick", "stall", "mixed", "jumps", "epoch", "skew"])
+        k["walk_every"] = 0
+        k["dtypes"] = ["float64", "int32"]
+        k["max_extent"] = 3
+        k["n_ops"] = rng.randint(12, 45)
+        k["auto_ts"] = rng.random() < 0.7
+
+    def setup_ops(self, run, rng):
+        ops = Profile.setup_ops(self, run, rng)
+        if run.knobs["clock"] == "epoch":
+            # start close to an interesting boundary
+            ops[0]["clock_set"] = P.pick(rng, [2**31 - 20, 4102444800 - 20, 951782400 - 5, 86400 - 3, 1])
+        return ops
+
+    def draw_dt(self, run, rng):
+        c = run.knobs["clock"]
+        if c == "epoch":
+            return P.pick(rng, [0, 1, 1, 2, 7])
+        if c == "skew":
+            return P.pick(rng, [0, 1, 5, -1, -3600, 86400, rng.randint(-100000, 100000)])
+        return Profile.draw_dt(self, run, rng)
+
+    def before_op(self, run, op):
+        from . import walk as K
+        fs = run.fstate()
+        if op.get("clock_set") is not None:
+            run.world.clock.set(op["clock_set"])
+        if fs is not None and fs.real is not None and op["op"] not in ("open", "restart"):
+            run.extra["ts_before"] = K.ts_walk(fs.real)
+            run.extra["auto_before"] = fs.auto_ts
+        else:
+            run.extra["ts_before"] = None
+
+    def after_op(self, run, op, res):
+        from . import walk as K
+        before = run.extra.get("ts_before")
+        fs = run.fstate()
+        if before is None or fs is None or fs.real is None or not isinstance(res, dict):
+            return
+        after = K.ts_walk(fs.real)
+        now = run.world.clock.t
+        auto = run.extra["auto_before"]
+        touch = res.get("touch") or {}
+        forced = res.get("forced")
+        site = op["op"] + (":" + op.get("attr", "") if op["op"] == "set_attr" else "") + \
+            (":" + op.get("k", "") if op["op"] == "append_dim" else "") + \
+            (":" + op.get("role", "") if op["op"] == "set_role" else "")
+        dt = op.get("dt", 0)
+        run.stats["clock:" + ("stall" if dt == 0 else "back" if dt < 0 else "jump" if dt > 3600 else "tick")] += 1
+        for key, (kind, c1, u1) in after.items():
+            if key not in before:
+                continue
+            _, c0, u0 = before[key]
+            if c1 != c0:
+                if not (forced and forced[0] == key and forced[1] == "created" and c1 == forced[2]):
+                    run.violation("ts_rule", site, "created_at_changed:" + kind,
+                                  "%s %s created_at %r -> %r" % (kind, key, c0, c1))
+            if forced and forced[0] == key and forced[1] == "updated":
+                if u1 != forced[2]:
+                    run.violation("ts_rule", site, "forced_updated_not_set:" + kind, "%r != %r" % (u1, forced[2]))
+                continue
+            if u1 != u0:
+                if not auto:
+                    run.violation("ts_rule", site, "changed_with_auto_off:" + kind,
+                                  "%s %s updated_at %r -> %r with auto-update off" % (kind, key, u0, u1))
+                if key not in touch:
+                    run.violation("ts_rule", site, "unrelated_entity_changed:" + kind,
+                                  "%s %s updated_at %r -> %r, op target(s) %r" % (kind, key, u0, u1, list(touch)))
+                if u1 != now:
+                    run.violation("ts_rule", site, "updated_not_now:" + kind,
+                                  "%s %s updated_at %r, simulated now %r" % (kind, key, u1, now))
+                run.stats["ts_bumps_seen"] += 1
+            elif auto and touch.get(key) == "must" and res.get("outcome") == "ok" and u1 != now:
+                run.violation("ts_rule", site, "listed_change_did_not_update:" + kind,
+                              "%s %s updated_at stayed %r, simulated now %r" % (kind, key, u1, now))
+        if not auto:
+            run.stats["ops_with_auto_off"] += 1
+        run.stats["ts_diff_checks"] += 1
+
+
 PROFILES = {}
 
 
@@ -273,3 +376,4 @@ register(C04())
 register(C05())
 register(C01())
 register(C13())
+register(C19())
